@@ -60,6 +60,7 @@ def check(repo, rep, tier):
         for path in paths:
             def assumptions(path=path):
                 v = Valuer(base_env(fi) if fi is not None else {})
+                v.uninterp = True
                 if path is not None:
                     for t, pol in path.conds:
                         v.assume(t, pol)
